@@ -137,12 +137,103 @@ Section C01.
        lookup id (c_items (c_new clock_at str_ltb records)) = Some (mkItem v (clock_at 0))) /\
     (forall id, ~ In id (map fst records) -> lookup id (c_items (c_new clock_at str_ltb records)) = None).
   Proof. intros. apply c_new_contents; assumption. Qed.
+
+  (* ... and how those records are addressed afterwards: Get looks up the id it is given THROUGH the
+     id interceptor, the constructor stored the ids as given.  A record is found exactly under the
+     ids the interceptor maps to its id; a record whose id is not in the interceptor's range (e.g.
+     "A" under strings.ToLower) is returned by no Get (notes/C01.md: observation, not a finding) *)
+  Theorem C01_initial_records_addressing : forall (records : list (string * M)) id0 mask,
+    NoDup (map fst records) ->
+    (forall v, In (apply_id idfun id0, v) records ->
+       c_get r_filter idfun (c_new clock_at str_ltb records) id0 mask =
+       Some (match mask with Some k => r_filter k v | None => v end)) /\
+    (~ In (apply_id idfun id0) (map fst records) ->
+       c_get r_filter idfun (c_new clock_at str_ltb records) id0 mask = None).
+  Proof.
+    intros records id0 mask N. destruct (C01_initial_records records N) as (_ & A & B). unfold c_get. split.
+    - intros v Hin. rewrite (A _ _ Hin). reflexivity.
+    - intros Hn. rewrite (B _ Hn). reflexivity.
+  Qed.
+
+  (* ... and usable afterwards: the reported id addresses the new item for Get, for Delete (every
+     Delete of it returns the written value, a successful one removes it) and for Update (it
+     resolves to the very key the item is stored under) *)
+  Theorem C01_generated_id_usable : forall s id0 msg (o : wopts M writer) cands s' nv ev cb,
+    spec_c_update s id0 msg o cands = (s', inl nv, ev, cb) ->
+    String.eqb (apply_id idfun id0) "" && wo_gen_id o = true ->
+    sorted str_ltb (c_items s) ->
+    exists g t, first_fresh idfun cands 10 (c_items s) = Some g /\
+      lookup (apply_id idfun g) (c_items s') = Some (mkItem nv t) /\
+      c_get r_filter idfun s' g None = Some nv /\
+      (forall (o2 : wopts M writer), exists s2 e ev2,
+         spec_c_delete s' g o2 = (s2, Some nv, e, ev2) /\
+         (e = None -> lookup (apply_id idfun g) (c_items s2) = None)) /\
+      (forall (o2 : wopts M writer) c2,
+         String.eqb (apply_id idfun g) "" && wo_gen_id o2 = false ->
+         resolves idfun s' g o2 c2 (apply_id idfun g) None).
+  Proof.
+    intros s id0 msg o cands s' nv ev cb H G S.
+    assert (S' : sorted str_ltb (c_items s')) by (eapply update_sorted; eauto).
+    apply update_outcomes in H.
+    destruct H as [(code & Hr & _)|(id & gen & nv' & t & Hr & Hres & Hl & _)]; [discriminate|].
+    inversion Hr. subst nv'. unfold resolves in Hres. rewrite G in Hres.
+    destruct Hres as (g & F & -> & ->). exists g, t. split; [exact F|]. split; [exact Hl|].
+    split; [unfold c_get; rewrite Hl; reflexivity|]. split.
+    - intros o2. destruct (spec_c_delete s' g o2) as [[[s2 r] e] ev2] eqn:D.
+      exists s2, e, ev2. pose proof D as D'. apply delete_outcomes in D'. simpl in D'. rewrite Hl in D'.
+      destruct D' as [(L & _)|[(it & c & L & -> & -> & -> & ->)|(it & t2 & L & -> & -> & E & _)]].
+      + discriminate.
+      + inversion L. subst it. simpl. split; [reflexivity|discriminate].
+      + inversion L. subst it. simpl. split; [reflexivity|]. intros _.
+        rewrite E. apply lookup_remove_same with (str_ltb := str_ltb); auto.
+    - intros o2 c2 C. unfold resolves. rewrite C. auto.
+  Qed.
+
+  (* Get and List tell the same story: on sorted contents (every reachable state) Get finds v under
+     id exactly when the full List has the entry (id through the interceptor, v) -- and List has at
+     most one entry per id *)
+  Lemma lookup_iff_in (l : list (string * item M)) : sorted str_ltb l ->
+    forall k it, lookup k l = Some it <-> In (k, it) l.
+  Proof.
+    induction l as [|[k0 x] r IH]; intros S k it; simpl.
+    - split; [discriminate|tauto].
+    - apply (sorted_cons str_ltb ltb_trans) in S. destruct S as [Hab S].
+      destruct (String.eqb_spec k0 k) as [->|Hk].
+      + split.
+        * intros H. inversion H. auto.
+        * intros [H|H]; [inversion H; reflexivity|]. exfalso.
+          assert (A : str_ltb k k = true) by (apply Hab; apply (in_map fst) in H; exact H).
+          rewrite ltb_irrefl in A. discriminate.
+      + rewrite (IH S). split; [auto|]. intros [H|H]; [inversion H; contradiction|exact H].
+  Qed.
+
+  Theorem C01_get_agrees_with_list : forall (s : cstate M) id v,
+    sorted str_ltb (c_items s) ->
+    (c_get r_filter idfun s id None = Some v <-> In (apply_id idfun id, v) (c_list r_filter s None None)) /\
+    (forall k v1 v2, In (k, v1) (c_list r_filter s None None) -> In (k, v2) (c_list r_filter s None None) -> v1 = v2).
+  Proof.
+    intros s id v S.
+    assert (L : forall k v, In (k, v) (c_list r_filter s None None) <-> exists t, In (k, mkItem v t) (c_items s)).
+    { intros k w. unfold c_list. simpl. rewrite in_map_iff. split.
+      - intros ([k' [b t]] & E & Hin). simpl in E. inversion E. subst. apply filter_In in Hin. exists t. tauto.
+      - intros (t & Hin). exists (k, mkItem w t). split; [reflexivity|]. apply filter_In. auto. }
+    split.
+    - rewrite L. unfold c_get. split.
+      + destruct (lookup (apply_id idfun id) (c_items s)) as [[b t]|] eqn:Q; [|discriminate].
+        intros H. inversion H. subst. exists t. apply lookup_iff_in; assumption.
+      + intros (t & Hin). apply (lookup_iff_in _ S) in Hin. rewrite Hin. reflexivity.
+    - intros k v1 v2 H1 H2. apply L in H1, H2. destruct H1 as (t1 & H1), H2 as (t2 & H2).
+      apply (lookup_iff_in _ S) in H1, H2. rewrite H1 in H2. inversion H2. reflexivity.
+  Qed.
 End C01.
 
 Print Assumptions C01_preconditions_all_consulted.
 Print Assumptions C01_change_fn_success_needs_both.
 Print Assumptions C01_initial_records.
 Print Assumptions C01_value_is_register.
+Print Assumptions C01_generated_id_usable.
+Print Assumptions C01_get_agrees_with_list.
+Print Assumptions C01_initial_records_addressing.
 Print Assumptions C01_collection_refines_reference.
 Print Assumptions C01_value_refines_reference.
 Print Assumptions C01_failed_call_is_noop.
@@ -288,6 +379,31 @@ Example C01_tree_lists_sorted_nonvacuous :
 Proof.
   split; [repeat constructor; simpl; intuition discriminate|]. vm_compute. auto.
 Qed.
+
+(* non-vacuity: the record stored as "A" is not found under "A" nor "a" with the lower-case
+   interceptor, the record stored as "b" is *)
+Example C01_nonvacuous_initial_records_addressing :
+  let s := c_new fclock str_ltb [("A"%string, mkF 1 0 0); ("b"%string, mkF 2 0 0)] in
+  c_get fr_filter (Some lower) s "A" None = None /\ c_get fr_filter (Some lower) s "a" None = None /\
+  c_get fr_filter (Some lower) s "B" None = Some (mkF 2 0 0).
+Proof. vm_compute. auto. Qed.
+
+Example C01_nonvacuous_generated_id_usable :
+  let o := mkFWO None None None None false None false None false None None true false true true in
+  let '(s', r, _, cb) := spec_c_update fmsg_eqb fzero fw_validate fw_merge fclock str_ltb (Some lower)
+                           (mkC [] 0) "" (mkF 1 0 0) (to_wopts None o) ["AbC"%string] in
+  cb_ids cb = ["AbC"%string] /\ r = inl (mkF 1 0 0) /\
+  c_get fr_filter (Some lower) s' "AbC" None = Some (mkF 1 0 0) /\
+  let '(s2, body, e, _) := spec_c_delete fmsg_eqb fclock (Some lower) s' "AbC" (to_wopts None o) in
+  body = Some (mkF 1 0 0) /\ e = None /\ c_items s2 = [].
+Proof. vm_compute. auto 10. Qed.
+
+Example C01_nonvacuous_get_agrees_with_list :
+  let s := c_new fclock str_ltb [("b"%string, mkF 2 0 0); ("a"%string, mkF 1 0 0)] in
+  c_get fr_filter (Some lower) s "A" None = Some (mkF 1 0 0) /\
+  In ("a"%string, mkF 1 0 0) (c_list fr_filter s None None) /\
+  c_get fr_filter (Some lower) s "c" None = None.
+Proof. vm_compute. auto. Qed.
 
 (* auxiliary (outside the statement of C01, see notes/C01.md): pkg/resource/tween.go's update
    validation, the remaining pure function of the package, accepts exactly "no tween, or zero
